@@ -1014,7 +1014,7 @@ func c11GenLiteral(g *Gen, target int) {
 		frozen = 1
 	}
 	nops := r.PickInt([]int{0, 1, 2, 3, 5, 8, 12, 20, 30})
-	if g.Thorough() && r.Chance(1, 40) {
+	if g.Thorough() && r.Chance(1, 20) {
 		nops = r.Range(100, 300)
 	}
 	repeatP := r.PickInt([]int{0, 0, 3, 8}) // exact repeats of earlier streams, out of 10
@@ -1203,7 +1203,7 @@ func c11GenIDs(g *Gen) {
 
 func c11Gen(g *Gen) {
 	for target := 0; target <= 3; target++ {
-		for i := 0; i < g.Pick(450, 4000); i++ {
+		for i := 0; i < g.Pick(900, 12000); i++ {
 			c11GenLiteral(g, target)
 		}
 		for i := 0; i < g.Pick(250, 5000); i++ {
